@@ -9,10 +9,12 @@ import Driver.Errs
 import Driver.Seeds
 import Driver.ListView
 import Driver.Tlv
+import Driver.Resolve
 
 structure DState where
   lv : Driver.LvD.St := none
   tlv : Driver.TlvD.St := none
+  res : Driver.ResD.St := none
 
 def stateless (toks : List String) : Option String :=
   Driver.Tok.handle toks <|> Driver.PodD.handle toks <|> Driver.DiscD.handle toks <|>
@@ -26,9 +28,17 @@ def dispatch (st : DState) (line : String) : DState × String :=
     match Driver.LvD.handle st.lv toks with
     | some (lv', s) => ({ st with lv := lv' }, s)
     | none =>
-      match Driver.TlvD.handle st.tlv toks with
-      | some (t', s) => ({ st with tlv := t' }, s)
-      | none => (st, "bad-op")
+      match Driver.ResD.handle st.res toks with
+      | some (r', s) =>
+        -- `E` closes whichever history is open
+        ({ st with res := r' }, s)
+      | none =>
+        match Driver.TlvD.handle st.tlv toks with
+        | some (t', s) => ({ st with tlv := t' }, s)
+        | none =>
+          match toks, st.res with
+          | ["E"], some _ => ({ st with res := none }, "end")
+          | _, _ => (st, "bad-op")
 
 partial def loop (h : IO.FS.Stream) (out : IO.FS.Stream) (st : DState) : IO Unit := do
   let line ← h.getLine
